@@ -7,7 +7,7 @@ ID = "C12"
 LEVEL = "exploration"
 ORACLES = ("wcag", "csscolor")
 RULE = ("lists of length 0-12 over the C01 pair classes in random accepted spellings (incl. translucent text), 2- and 3-element entries mixed, "
-        "duplicates, invalid entries (text, background or both) at random positions, all 6 (mode, very_readable) settings. Oracle: one result per "
+        "duplicates, invalid entries (text, background or both) at random positions, all 6 (mode, very_readable) settings, passed by keyword or by position. Oracle: one result per "
         "entry in order; result colour == a fresh ColorPair(text,bg,large).make_readable(mode,very_readable)[0]; status == WCAG label of the "
         "read-back colour vs the background at that text size; invalid entries returned unchanged with a status that claims no readability; "
         "bulk(permuted list) == permuted bulk(list); removing the invalid entries leaves the other results unchanged. "
